@@ -62,6 +62,10 @@ func (r *c13Run) n(s string) string { return s + r.sfx }
 
 func (r *c13Run) put(id string, chans []string, extra Body, del bool) error {
 	d := r.docs[id]
+	if d == nil {
+		d = &c13Doc{}
+		r.docs[id] = d
+	}
 	body := Body{}
 	for k, v := range extra {
 		body[k] = v
@@ -151,6 +155,14 @@ func (r *c13Run) world(sym string) error {
 	case "g:del":
 		r.grantTo = ""
 		return r.put("g", nil, nil, true)
+	}
+	// generic "<doc>:<channels>" for further documents (d3:A, d4:AB, ...)
+	if i := strings.Index(sym, ":"); i > 0 && strings.HasPrefix(sym, "d") {
+		var chans []string
+		for _, c := range sym[i+1:] {
+			chans = append(chans, string(c))
+		}
+		return r.put(sym[:i], chans, nil, false)
 	}
 	return fmt.Errorf("unknown symbol %s", sym)
 }
@@ -394,7 +406,7 @@ func (e *c13Env) run(t testing.TB, r *vreport.Report, hist []string) {
 func TestVerifC13(t *testing.T) {
 	r := vreport.Begin("C13")
 	defer r.Finish(t)
-	r.Rule("every sequence of up to D world events from a 16-symbol alphabet (document channel moves, two-channel document, channel removal, delete; admin channels of the user; role assignment, role channels, role deletion; granting document for the user / for the role, grant removal, granting-document delete) x every placement of pulls after events (the last event is always followed by a pull) x paging limit {0,1,2}; the client resumes from the last position it received with revocations on; non-trivial = distinct (world sequence, pull placement, limit)")
+	r.Rule("every sequence of up to D world events from a 16-symbol alphabet (document channel moves, two-channel document, channel removal, delete; admin channels of the user; role assignment, role channels, role deletion; granting document for the user / for the role, grant removal, granting-document delete) x every placement of pulls after events (the last event is always followed by a pull) x paging limit {0,1,2}; plus, from a populated world (user with channel A directly and B through a role, six documents in A, one in A and B, client caught up; query pagination 2), every sequence of D-1 events x pull placements x limit {0,2,5}; the client resumes from the last position it received with revocations on; non-trivial = distinct (world sequence, pull placement, limit)")
 	r.Assume("the client follows the replication protocol's rules: it drops a document on deleted / revoked / removed-from-all-visible-channels, otherwise fetches the announced revision as the user; world events and pulls interleave at operation granularity with the mutation feed drained before each pull")
 	e := &c13Env{}
 	fresh := func() {
@@ -466,6 +478,45 @@ func TestVerifC13(t *testing.T) {
 		}
 		rec(nil)
 	}
+	// histories that continue from a populated world: the user has channel A directly and B through a role, six documents
+	// are in A (so that revocation and back-fill queries span several pages of 2) and one in both; the client has pulled
+	base13 := []string{"u+r", "r:B", "u:A", "d1:A", "d2:AB", "d3:A", "d4:A", "d5:A", "d6:A", "d7:A", "pull:0"}
+	D2 := 2
+	if r.Thorough() {
+		D2 = 3
+	}
+	r.Note("depth_from_populated_world", D2)
+	var rec2 func(w []string)
+	rec2 = func(w []string) {
+		if len(w) == D2 {
+			for mask := 0; mask < 1<<(D2-1); mask++ {
+				for _, limit := range []int{0, 2, 5} {
+					idx++
+					if !r.Mine(idx) || r.Expired() {
+						continue
+					}
+					hist := append([]string{}, base13...)
+					for i, s := range w {
+						hist = append(hist, s)
+						if i == D2-1 || mask&(1<<i) != 0 {
+							hist = append(hist, fmt.Sprintf("pull:%d", limit))
+						}
+					}
+					if e.n%100 == 99 {
+						fresh()
+					}
+					e.run(t, r, hist)
+					r.Add("evaluations", 1)
+					r.Add("distinct_nontrivial", 1)
+				}
+			}
+			return
+		}
+		for _, s := range c13World {
+			rec2(append(append([]string{}, w...), s))
+		}
+	}
+	rec2(nil)
 	if r.Expired() {
 		r.Cap("time budget reached before all histories were explored")
 	}
